@@ -1,7 +1,1136 @@
-//! C08 driver (stub: not built yet).
-use crate::trace::Args;
+//! C08 driver: word-level division (Dividers), inversion (Inverter), modular square roots, integer
+//! square roots, modular exponentiation, inv_mod64 and perfect-power detection, on the input space
+//! enumerated by spec/wordarith/WordShapes.tla (routine x prime class x operand pattern).
+//!
+//! All calls of one (routine, prime) are logged as one batch event; the contracts are evaluated by
+//! spec/wordarith/WordArithTrace.tla.  Nothing is judged here.
 
-pub fn run(_args: &Args) -> i32 {
-    eprintln!("driver c08 not built yet");
-    2
+use std::collections::BTreeMap;
+
+use bnum::cast::CastFrom;
+use bnum::types::{I1024, U1024, U2048, U256, U512};
+use bnum::BUint;
+use rand::rngs::StdRng;
+use rand::Rng;
+use serde_json::{json, Value};
+
+use yamaquasi::arith::{self, Dividers, Inverter};
+use yamaquasi::fbase::FBase;
+use yamaquasi::squfof::vhook as sqf;
+
+use crate::gen::{is_prime_u64, rand_bits, rng_for, Pool, Uint};
+use crate::trace::*;
+
+const SAT: u64 = (1 << 31) - 1;
+/// small outputs are logged as plain integers saturated at 2^31 - 1 (outside every valid range)
+fn sat(x: u64) -> u64 {
+    std::cmp::min(x, SAT)
+}
+
+fn merge(mut base: Value, r: Result<Value, Value>) -> Value {
+    let extra = match r {
+        Ok(v) => v,
+        Err(v) => v,
+    };
+    if let (Some(b), Some(e)) = (base.as_object_mut(), extra.as_object()) {
+        for (k, v) in e {
+            b.insert(k.clone(), v.clone());
+        }
+    }
+    base
+}
+
+fn bits64(x: u64) -> u32 {
+    64 - x.leading_zeros()
+}
+
+fn rbits(rng: &mut StdRng, bits: u32) -> u64 {
+    if bits == 0 {
+        0
+    } else {
+        rand_bits(rng, bits).digits()[0]
+    }
+}
+
+// ------------------------------------------------------------------------------------------
+// primes
+// ------------------------------------------------------------------------------------------
+fn sieve(n: usize) -> Vec<u32> {
+    let mut comp = vec![false; n];
+    let mut ps = vec![];
+    for i in 2..n {
+        if !comp[i] {
+            ps.push(i as u32);
+            let mut j = i * i;
+            while j < n {
+                comp[j] = true;
+                j += i;
+            }
+        }
+    }
+    ps
+}
+
+fn prev_prime(mut n: u64) -> u64 {
+    loop {
+        n -= 1;
+        if is_prime_u64(n) {
+            return n;
+        }
+    }
+}
+
+fn next_prime(mut n: u64) -> u64 {
+    loop {
+        n += 1;
+        if is_prime_u64(n) {
+            return n;
+        }
+    }
+}
+
+/// m64 field of a divider, read from its Debug output (None if the layout changed or `new` panics)
+fn m64_of(p: u32) -> Option<u64> {
+    let s = guard(|| format!("{:?}", Dividers::new(p))).ok()?;
+    let i = s.find("m64: ")?;
+    let t: String = s[i + 5..].chars().take_while(|c| c.is_ascii_digit()).collect();
+    t.parse().ok()
+}
+
+struct Primes {
+    small: Vec<u32>, // all primes below 2^16
+    seed: u64,
+    thorough: bool,
+    cache: BTreeMap<String, Vec<u32>>,
+}
+
+impl Primes {
+    fn class(&mut self, c: &str) -> Vec<u32> {
+        if let Some(v) = self.cache.get(c) {
+            return v.clone();
+        }
+        let mut rng = rng_for(self.seed, &format!("c08/primes/{}", c));
+        let mut v: Vec<u32> = match c {
+            "two" => vec![2],
+            "tiny" => self.small.iter().cloned().filter(|&p| p > 2 && p < 256).collect(),
+            "all16" => self.small.clone(),
+            "all10" => self.small.iter().cloned().filter(|&p| p < 1024).collect(),
+            "tz" => {
+                // primes whose multiplier (or multiplier - 1) ends in many zero bits
+                let mut cand: Vec<(u32, u32)> = vec![];
+                let mut ps: Vec<u32> = sieve(1 << 20).into_iter().filter(|&p| p > 2).collect();
+                for _ in 0..(if self.thorough { 60000 } else { 15000 }) {
+                    let b = rng.gen_range(21..=30);
+                    let p = next_prime(rbits(&mut rng, b) | 1);
+                    if p < 1 << 30 {
+                        ps.push(p as u32);
+                    }
+                }
+                for p in ps {
+                    if let Some(m) = m64_of(p) {
+                        let tz = std::cmp::max(m.trailing_zeros(), (m - 1).trailing_zeros());
+                        cand.push((tz, p));
+                    }
+                }
+                cand.sort();
+                cand.reverse();
+                cand.iter().take(if self.thorough { 40 } else { 12 }).map(|x| x.1).collect()
+            }
+            "fermat" => {
+                let mut v = vec![257u32, 641, 65537, 274177, 6700417, 8191, 131071, 524287, 178481, 2796203, 715827883];
+                // more prime divisors of 2^k +- 1 below 2^30
+                for k in [37u32, 41, 43, 47, 53, 59, 61, 64, 96, 127, 128] {
+                    for sgn in [1i32, -1] {
+                        // trial division of 2^k + sgn by primes = 1 mod 2k-ish: search a few candidates
+                        let mut q: u64 = 1;
+                        let step = if sgn == 1 { 2 * k as u64 } else { k as u64 };
+                        for _ in 0..200000 {
+                            q += step;
+                            if q >= 1 << 30 {
+                                break;
+                            }
+                            if q % 2 == 1 && is_prime_u64(q) {
+                                let t = crate::gen::powmod(&Uint::from(2u64), &Uint::from(k as u64), &Uint::from(q)).digits()[0];
+                                if (sgn == 1 && t == q - 1) || (sgn == -1 && t == 1) {
+                                    v.push(q as u32);
+                                    break;
+                                }
+                            }
+                        }
+                    }
+                }
+                v
+            }
+            "below2k" => (9..=30).map(|k| prev_prime(1u64 << k) as u32).collect(),
+            "above2k" => (8..=29).map(|k| next_prime(1u64 << k) as u32).collect(),
+            "top" => {
+                let mut v = vec![];
+                for (k, cnt) in [(30u32, 3), (28, 3), (24, 3), (16, 2)] {
+                    let mut q = 1u64 << k;
+                    for _ in 0..cnt {
+                        q = prev_prime(q);
+                        v.push(q as u32);
+                    }
+                }
+                v
+            }
+            "rand" => {
+                let per = if self.thorough { 6 } else { 1 };
+                let mut v = vec![];
+                for b in 9..=30u32 {
+                    for _ in 0..per {
+                        loop {
+                            let q = rbits(&mut rng, b) | 1;
+                            if is_prime_u64(q) {
+                                v.push(q as u32);
+                                break;
+                            }
+                        }
+                    }
+                }
+                v
+            }
+            "twoadic" => {
+                // p = c 2^k + 1 < 2^24, k = 4..22 (p - 1 divisible by a large power of two)
+                let mut v = vec![];
+                for k in 4..=22u32 {
+                    let mut found = 0;
+                    let mut c = 1u64;
+                    while (c << k) + 1 < 1 << 24 && found < 2 {
+                        let q = (c << k) + 1;
+                        if is_prime_u64(q) {
+                            v.push(q as u32);
+                            found += 1;
+                        }
+                        c += 2;
+                    }
+                }
+                v
+            }
+            _ => panic!("unknown prime class {}", c),
+        };
+        v.sort();
+        v.dedup();
+        self.cache.insert(c.to_string(), v.clone());
+        v
+    }
+}
+
+// ------------------------------------------------------------------------------------------
+// operand patterns
+// ------------------------------------------------------------------------------------------
+/// values n = multiple of p adjacent to t, and neighbours, within [0, max]
+fn around(p: u64, t: u128, max: u128) -> Vec<u128> {
+    let p = p as u128;
+    let m = t - t % p;
+    let mut v = vec![];
+    for base in [m.wrapping_sub(p), m, m + p] {
+        if base > t + p {
+            continue; // wrapped
+        }
+        for d in [-1i128, 0, 1] {
+            let x = base as i128 + d;
+            if x >= 0 && (x as u128) <= max {
+                v.push(x as u128);
+            }
+        }
+    }
+    v.push(t.min(max));
+    if t >= 1 {
+        v.push(t - 1);
+    }
+    v.sort();
+    v.dedup();
+    v
+}
+
+fn pats_u64(rng: &mut StdRng, p: u64, pat: &str) -> Vec<u64> {
+    let max = u64::MAX as u128;
+    let ar = |t: u128| -> Vec<u64> { around(p, t, max).into_iter().map(|x| x as u64).collect() };
+    let pb = bits64(p);
+    match pat {
+        "zero" => vec![0],
+        "one" => vec![1],
+        "pm1" => vec![p - 1],
+        "p" => vec![p],
+        "pp1" => vec![p + 1, 2 * p - 1, 2 * p, 2 * p + 1],
+        "mul32" => ar(1 << 32),
+        "mul48" => ar(1 << 48),
+        "mul62" => ar(1 << 62),
+        "mul63" => ar(1 << 63),
+        "mul64" => ar(1 << 64),
+        "max" => vec![u64::MAX, u64::MAX - 1, 1 << 63, (1 << 63) - 1, (1 << 63) + 1],
+        "pow2" => {
+            let mut v = vec![];
+            for j in [31u32, 32, 33, 62, 63, rng.gen_range(1..64), rng.gen_range(1..64), rng.gen_range(1..64)] {
+                v.push(1u64 << j);
+                v.push((1u64 << j) - 1);
+            }
+            v
+        }
+        "qmaxrem" | "qzero" | "qm1" => {
+            let mut v = vec![];
+            for qb in [1u32, 16, 33, 63 - pb, 64 - pb, 64 - pb, rng.gen_range(1..=64 - pb)] {
+                let q = rbits(rng, qb) as u128;
+                let n = match pat {
+                    "qmaxrem" => q * p as u128 + (p as u128 - 1),
+                    "qzero" => q * p as u128,
+                    _ => q * p as u128 - 1,
+                };
+                if n <= max {
+                    v.push(n as u64);
+                    if pat == "qm1" && n + 2 <= max {
+                        v.push(n as u64 + 2);
+                    }
+                }
+            }
+            v
+        }
+        "rand64" => (0..4).map(|_| rng.gen()).collect(),
+        "randbits" => (0..4).map(|_| { let b = rng.gen_range(1..=64); rbits(rng, b) }).collect(),
+        "psq" => {
+            let mut v = vec![p * p - 1, p * p, p * p + 1];
+            if let Some(c) = (p * p).checked_mul(p) {
+                v.extend([c - 1, c, c + 1]);
+            }
+            v
+        }
+        _ => panic!("unknown u64 pattern {}", pat),
+    }
+}
+
+fn pats_i64(rng: &mut StdRng, p: u64, pat: &str) -> Vec<i64> {
+    if pat == "i64min" {
+        let mut v = vec![i64::MIN, i64::MIN + 1, i64::MAX, -1, -(p as i64), -(p as i64) + 1, -(p as i64) - 1];
+        for x in around(p, 1 << 63, 1 << 63) {
+            v.push((-(x as i128)) as i64);
+        }
+        return v;
+    }
+    let mut v = vec![];
+    for x in pats_u64(rng, p, pat) {
+        if x <= i64::MAX as u64 {
+            v.push(x as i64);
+            v.push(-(x as i64));
+        } else if x == 1 << 63 {
+            v.push(i64::MIN);
+        }
+    }
+    v
+}
+
+fn r64_of(p: u64) -> u64 {
+    ((u64::MAX % p) + 1) % p
+}
+
+/// second word making the first Horner step (pol * r64 + d) overflow its 64-bit reduction, if possible
+fn carry_word(rng: &mut StdRng, p: u64, pol: u64) -> u64 {
+    let t = pol as u128 * r64_of(p) as u128;
+    let hi = ((t >> 64) as u64 + 1) * r64_of(p);
+    let delta = if hi > 1 { rng.gen_range(0..hi) } else { 0 };
+    (u64::MAX - t as u64).wrapping_sub(delta / 2)
+}
+
+fn pats_u128(rng: &mut StdRng, p: u64, pat: &str) -> Vec<u128> {
+    let max = u128::MAX;
+    match pat {
+        "hi0" => {
+            let mut v: Vec<u128> = vec![0, 1, p as u128, u64::MAX as u128];
+            v.extend(pats_u64(rng, p, "mul64").into_iter().map(|x| x as u128));
+            v.extend(pats_u64(rng, p, "rand64").into_iter().map(|x| x as u128));
+            v
+        }
+        "mul64" => around(p, 1 << 64, max),
+        "mul127" => around(p, 1 << 127, max),
+        "mul128" => {
+            let mut v = around(p, max - max % p as u128, max);
+            v.push(max);
+            v
+        }
+        "max" => vec![max, max - 1, 1 << 127, (1 << 127) - 1, (1 << 127) + 1],
+        "pow2" => {
+            let mut v = vec![];
+            for j in [64u32, 65, 95, 96, 97, 126, 127, rng.gen_range(64..128), rng.gen_range(64..128)] {
+                v.push(1u128 << j);
+                v.push((1u128 << j) - 1);
+                v.push((1u128 << j) + 1);
+            }
+            v
+        }
+        "carry" => (0..8)
+            .map(|i| {
+                let pol: u64 = if i < 2 { u64::MAX - i } else { rng.gen::<u64>() | (1 << 63) };
+                ((pol as u128) << 64) | carry_word(rng, p, pol) as u128
+            })
+            .collect(),
+        "n0zero" => (0..4).map(|_| (rng.gen::<u64>() as u128) << 64).collect(),
+        "n0ones" => (0..4).map(|_| ((rng.gen::<u64>() as u128) << 64) | u64::MAX as u128).collect(),
+        "rand128" => (0..4).map(|_| rng.gen::<u128>() >> rng.gen_range(0..64)).collect(),
+        "qzero" | "qm1" => {
+            let mut v = vec![];
+            for qb in [40u32, 64, 65, 97, 128 - bits64(p)] {
+                let q: u128 = (rng.gen::<u128>() | (1 << 127)) >> (128 - qb);
+                if let Some(n) = q.checked_mul(p as u128) {
+                    v.push(if pat == "qzero" { n } else { n - 1 });
+                }
+            }
+            v
+        }
+        _ => panic!("unknown u128 pattern {}", pat),
+    }
+}
+
+fn rand_uint<const N: usize>(rng: &mut StdRng, bits: u32) -> BUint<N> {
+    let x = rand_bits(rng, bits);
+    let mut d = [0u64; N];
+    d.copy_from_slice(&x.digits()[..N]);
+    BUint::from_digits(d)
+}
+
+fn pats_uint<const N: usize>(rng: &mut StdRng, p: u64, pat: &str) -> Vec<BUint<N>> {
+    let w = 64 * N as u32;
+    let one = BUint::<N>::ONE;
+    let pp = BUint::<N>::from(p);
+    let small = |rng: &mut StdRng| BUint::<N>::from(rng.gen_range(0u64..2_000_000_000));
+    match pat {
+        "zero" => vec![BUint::ZERO],
+        "small" => vec![one, pp - one, pp, pp + one, BUint::from(u64::MAX), BUint::from(rng.gen::<u64>())],
+        "ones" => {
+            let m = BUint::<N>::MAX;
+            let top = m - m % pp;
+            vec![m, m - one, top, top - one, top + one]
+        }
+        "topbit" => {
+            let t = one << (w - 1);
+            vec![t, t - one, t + one, t - t % pp, t - t % pp - one]
+        }
+        "altwords" => {
+            let mut a = [0u64; N];
+            let mut b = [0u64; N];
+            for i in 0..N {
+                if i % 2 == 0 {
+                    a[i] = u64::MAX
+                } else {
+                    b[i] = u64::MAX
+                }
+            }
+            vec![BUint::from_digits(a), BUint::from_digits(b)]
+        }
+        "tricky" => {
+            let j = rng.gen_range(1..N as u32);
+            vec![
+                (one << 64) + BUint::from(1_234_567_890u64),
+                (one << 65) + BUint::from(1_234_567_890u64),
+                (one << 64) + small(rng),
+                (one << 65) + small(rng),
+                (one << (64 * j)) + small(rng),
+                (one << (64 * j)) - small(rng) - one,
+                (one << (64 * j + 1)) + small(rng),
+            ]
+        }
+        "mulq" => {
+            let mut v = vec![];
+            for _ in 0..3 {
+                let qb = rng.gen_range(1..=w - 31);
+                let n = rand_uint::<N>(rng, qb) * pp;
+                v.extend([n, n - one, n + one, n + pp - one]);
+            }
+            let n = rand_uint::<N>(rng, w - 31) * pp;
+            v.extend([n, n - one]);
+            v
+        }
+        "mul2k" => {
+            let mut v = vec![];
+            let mut js = vec![1u32, N as u32 - 1];
+            js.push(rng.gen_range(1..N as u32));
+            for j in js {
+                let t = one << (64 * j);
+                let m = t - t % pp;
+                v.extend([m - one, m, m + one, m + pp - one, m + pp, t, t - one]);
+            }
+            v
+        }
+        "carry" => {
+            let mut v = vec![];
+            for i in 0..6 {
+                let j = if i < 2 { N - 1 } else { rng.gen_range(1..N) }; // position of the top non-zero word
+                let mut d = [0u64; N];
+                for k in 0..j {
+                    d[k] = rng.gen();
+                }
+                let pol: u64 = if i % 2 == 0 { u64::MAX - rng.gen_range(0..3) } else { rng.gen::<u64>() | (1 << 63) };
+                d[j] = pol;
+                d[j - 1] = carry_word(rng, p, pol);
+                v.push(BUint::from_digits(d));
+            }
+            v
+        }
+        "rand" => (0..4).map(|_| { let b = rng.gen_range(1..=w); rand_uint::<N>(rng, b) }).collect(),
+        "sparse" => {
+            let mut v = vec![];
+            for _ in 0..3 {
+                let mut d = [0u64; N];
+                for k in 0..N {
+                    if rng.gen::<bool>() {
+                        d[k] = rng.gen();
+                    }
+                }
+                v.push(BUint::from_digits(d));
+            }
+            // multiples of p shifted by whole words: zero low words with no pending remainder
+            for _ in 0..2 {
+                let j = rng.gen_range(1..N as u32);
+                let qb = rng.gen_range(1..=w - 64 * j - 31);
+                let q = rand_uint::<N>(rng, qb);
+                v.push((q * pp) << (64 * j));
+                v.push(((q * pp) << (64 * j)) + BUint::from(rng.gen_range(0..p)));
+            }
+            v
+        }
+        _ => panic!("unknown multiword pattern {}", pat),
+    }
+}
+
+fn pats_u16(rng: &mut StdRng, p: u64, pat: &str) -> Vec<u16> {
+    let top = 0xffffu64 - 0xffff % p;
+    let v: Vec<u64> = match pat {
+        "edges" => vec![0, 1, p - 1, p % 65536, (p + 1) % 65536, 0xffff, 0xfffe, 0x8000, 0x7fff, 0x8001, top, top - 1, (top + 1).min(0xffff), top + p - 1],
+        "mul" => {
+            let mut v = vec![];
+            for _ in 0..3 {
+                let k = rng.gen_range(0..=0xffff / p);
+                v.extend([k * p, (k * p).saturating_sub(1), k * p + p - 1]);
+            }
+            v
+        }
+        "rand" => (0..3).map(|_| rng.gen_range(0..65536)).collect(),
+        _ => panic!("unknown u16 pattern {}", pat),
+    };
+    v.into_iter().filter(|&x| x <= 0xffff).map(|x| x as u16).collect()
+}
+
+fn pats_inv(rng: &mut StdRng, p: u64, pat: &str) -> Vec<u32> {
+    let v: Vec<u64> = match pat {
+        "one" => vec![1],
+        "two" => vec![2, 3, 4],
+        "pm1" => vec![p - 1],
+        "pm2" => vec![p - 2, p - 3],
+        "pow2" => {
+            let mut v = vec![];
+            let mut x = 2u64;
+            while x < p {
+                v.push(x);
+                if x > 2 {
+                    v.push(x - 1);
+                }
+                if x + 1 < p {
+                    v.push(x + 1);
+                }
+                x *= 2;
+            }
+            v
+        }
+        "half" => vec![p / 2, p / 2 + 1, p / 3, (2 * p) / 3],
+        "rand" => (0..8).map(|_| rng.gen_range(1..p)).collect(),
+        "smallrand" => (0..4).map(|_| rng.gen_range(1..std::cmp::min(p, 1000))).collect(),
+        _ => panic!("unknown inverter pattern {}", pat),
+    };
+    v.into_iter().filter(|&x| x > 0 && x < p).map(|x| x as u32).collect()
+}
+
+fn pats_sqrt(rng: &mut StdRng, p: u64, pat: &str) -> Vec<u64> {
+    match pat {
+        "zero" => vec![0],
+        "one" => vec![1, 2, 3, 4],
+        "pm1" => vec![p - 1, p.saturating_sub(2), p.saturating_sub(4)],
+        "square" => (0..4).map(|_| { let r = rng.gen_range(0..p) as u128; ((r * r) % p as u128) as u64 }).collect(),
+        "rand" => (0..6).map(|_| rng.gen_range(0..p)).collect(),
+        "bign" => vec![rng.gen(), rng.gen::<u64>() | 1 << 63, u64::MAX, p + 1, 2 * p - 1],
+        "mulp" => vec![p, 2 * p, p * rng.gen_range(1..1u64 << 32)],
+        _ => panic!("unknown sqrt pattern {}", pat),
+    }
+}
+
+// ------------------------------------------------------------------------------------------
+// emitters
+// ------------------------------------------------------------------------------------------
+fn hex64(v: &[u64]) -> Value {
+    Value::from(v.iter().map(|x| format!("{:#x}", x)).collect::<Vec<_>>())
+}
+
+fn dedup<T: Ord + Clone>(v: &mut Vec<T>) {
+    v.sort();
+    v.dedup();
+}
+
+fn dividers_uint<const N: usize>(out: &mut Out, base: &Value, p: u32, ns: &[BUint<N>], which: &str) {
+    let nsj: Vec<Value> = ns.iter().map(dn).collect();
+    let nsx: Vec<String> = ns.iter().map(|x| format!("{:#x}", x)).collect();
+    let mut b = base.clone();
+    b["ns"] = Value::from(nsj);
+    b["nx"] = Value::from(nsx);
+    b["w"] = json!(N);
+    if which == "mod_uint" {
+        let r = guard(|| {
+            let d = Dividers::new(p);
+            let rs: Vec<Value> = ns.iter().map(|n| du(d.mod_uint(n))).collect();
+            json!({ "rs": rs })
+        });
+        out.ev(merge(b, r));
+    } else {
+        let r = guard(|| {
+            let d = Dividers::new(p);
+            let res: Vec<(BUint<N>, u64)> = ns.iter().map(|n| d.divmod_uint(n)).collect();
+            json!({"qs": res.iter().map(|x| dn(&x.0)).collect::<Vec<_>>(), "rs": res.iter().map(|x| du(x.1)).collect::<Vec<_>>()})
+        });
+        out.ev(merge(b, r));
+    }
+}
+
+fn root_floor(n: &Uint, k: u32) -> Uint {
+    // floor of the k-th root by bit-by-bit construction (independent of the library under test)
+    let nn = U2048::cast_from(*n);
+    let maxbits = (n.bits() + k - 1) / k + 1;
+    let mut r = U2048::ZERO;
+    for b in (0..maxbits).rev() {
+        let t = r | (U2048::ONE << b);
+        // t^k <= n ?  t has at most maxbits bits, t^k at most n.bits + 2k bits < 2048
+        let mut pw = U2048::ONE;
+        let mut ok = true;
+        for _ in 0..k {
+            pw = pw * t;
+            if pw > nn {
+                ok = false;
+                break;
+            }
+        }
+        if ok {
+            r = t;
+        }
+    }
+    Uint::cast_from(r)
+}
+
+fn roots_json(n: &Uint) -> Value {
+    Value::from([2u32, 3, 5, 7, 11, 13, 17, 19].iter().map(|&k| dn(&root_floor(n, k))).collect::<Vec<_>>())
+}
+
+pub fn run(args: &Args) -> i32 {
+    let seed = arg_u64(args, "seed", 1);
+    let thorough = arg_str(args, "tier", "quick") == "thorough";
+    let shapes = read_ndjson(arg_str(args, "shapes", "shapes.ndjson"));
+    let mut out = Out::create(arg_str(args, "out", "trace.ndjson"));
+    let mut primes = Primes { small: sieve(1 << 16), seed, thorough, cache: BTreeMap::new() };
+
+    // group the operand patterns by (routine, prime class)
+    let mut groups: BTreeMap<(String, String), Vec<String>> = BTreeMap::new();
+    for sh in &shapes {
+        let k = (sh["op"].as_str().unwrap().to_string(), sh["pc"].as_str().unwrap().to_string());
+        groups.entry(k).or_default().push(sh["np"].as_str().unwrap().to_string());
+    }
+    for ((op, pc), mut nps) in groups {
+        nps.sort();
+        let mut rng = rng_for(seed, &format!("c08/{}/{}", op, pc));
+        match op.as_str() {
+            "divmod64" | "modu63" | "modi64" | "mod_u128" | "mod_uint" | "divmod_uint" | "modu16" | "invert" | "sqrt_mod" => {
+                let plist = primes.class(&pc);
+                for (pi, &p) in plist.iter().enumerate() {
+                    let p64 = p as u64;
+                    let case = format!("{}/{}/{}", op, pc, p);
+                    let base = json!({"op": op, "case": case, "pc": pc, "p": p, "nps": nps});
+                    match op.as_str() {
+                        "divmod64" | "modu63" => {
+                            let mut ns: Vec<u64> = nps.iter().flat_map(|np| pats_u64(&mut rng, p64, np)).collect();
+                            if op == "modu63" {
+                                ns.retain(|&n| n >> 63 == 0);
+                            }
+                            dedup(&mut ns);
+                            let mut b = base.clone();
+                            b["ns"] = Value::from(ns.iter().map(|&n| du(n)).collect::<Vec<_>>());
+                            b["nx"] = hex64(&ns);
+                            let r = guard(|| {
+                                let d = Dividers::new(p);
+                                if op == "divmod64" {
+                                    let res: Vec<(u64, u64)> = ns.iter().map(|&n| d.divmod64(n)).collect();
+                                    json!({"qs": res.iter().map(|x| du(x.0)).collect::<Vec<_>>(), "rs": res.iter().map(|x| du(x.1)).collect::<Vec<_>>()})
+                                } else {
+                                    json!({"rs": ns.iter().map(|&n| du(d.modu63(n))).collect::<Vec<_>>()})
+                                }
+                            });
+                            out.ev(merge(b, r));
+                        }
+                        "modi64" => {
+                            let mut ns: Vec<i64> = nps.iter().flat_map(|np| pats_i64(&mut rng, p64, np)).collect();
+                            dedup(&mut ns);
+                            let mut b = base.clone();
+                            b["ns"] = Value::from(ns.iter().map(|&n| di64(n)).collect::<Vec<_>>());
+                            b["nx"] = Value::from(ns.iter().map(|n| n.to_string()).collect::<Vec<_>>());
+                            let r = guard(|| {
+                                let d = Dividers::new(p);
+                                json!({"rs": ns.iter().map(|&n| du(d.modi64(n))).collect::<Vec<_>>()})
+                            });
+                            out.ev(merge(b, r));
+                        }
+                        "mod_u128" => {
+                            let mut ns: Vec<u128> = nps.iter().flat_map(|np| pats_u128(&mut rng, p64, np)).collect();
+                            dedup(&mut ns);
+                            let mut b = base.clone();
+                            b["ns"] = Value::from(ns.iter().map(|&n| du128(n)).collect::<Vec<_>>());
+                            b["nx"] = Value::from(ns.iter().map(|n| format!("{:#x}", n)).collect::<Vec<_>>());
+                            let r = guard(|| {
+                                let d = Dividers::new(p);
+                                json!({"rs": ns.iter().map(|&n| du(d.mod_u128(n))).collect::<Vec<_>>()})
+                            });
+                            out.ev(merge(b, r));
+                        }
+                        "mod_uint" | "divmod_uint" => {
+                            // all three widths for the special classes, one width (rotating) otherwise
+                            let all = thorough || matches!(pc.as_str(), "two" | "tz" | "fermat" | "top");
+                            for (wi, w) in [4usize, 8, 16].iter().enumerate() {
+                                if !all && pi % 3 != wi {
+                                    continue;
+                                }
+                                let mut b = base.clone();
+                                b["case"] = json!(format!("{}/{}", case, w));
+                                match w {
+                                    4 => {
+                                        let ns: Vec<U256> = nps.iter().flat_map(|np| pats_uint::<4>(&mut rng, p64, np)).collect();
+                                        dividers_uint(&mut out, &b, p, &ns, &op)
+                                    }
+                                    8 => {
+                                        let ns: Vec<U512> = nps.iter().flat_map(|np| pats_uint::<8>(&mut rng, p64, np)).collect();
+                                        dividers_uint(&mut out, &b, p, &ns, &op)
+                                    }
+                                    _ => {
+                                        let ns: Vec<U1024> = nps.iter().flat_map(|np| pats_uint::<16>(&mut rng, p64, np)).collect();
+                                        dividers_uint(&mut out, &b, p, &ns, &op)
+                                    }
+                                }
+                            }
+                        }
+                        "modu16" => {
+                            let mut ns: Vec<u16> = nps.iter().flat_map(|np| pats_u16(&mut rng, p64, np)).collect();
+                            dedup(&mut ns);
+                            let mut b = base.clone();
+                            b["ns"] = json!(ns);
+                            let r = guard(|| {
+                                let d = Dividers::new(p);
+                                json!({"rs": ns.iter().map(|&n| d.modu16(n)).collect::<Vec<_>>()})
+                            });
+                            out.ev(merge(b, r));
+                        }
+                        "invert" => {
+                            if p >> 28 != 0 {
+                                continue; // documented domain of the inverter
+                            }
+                            let mut xs: Vec<u32> = nps.iter().flat_map(|np| pats_inv(&mut rng, p64, np)).collect();
+                            dedup(&mut xs);
+                            let mut b = base.clone();
+                            b["xs"] = json!(xs);
+                            let r = guard(|| {
+                                let d = Dividers::new(p);
+                                let inv = Inverter::new(p);
+                                json!({"is": xs.iter().map(|&x| sat(inv.invert(x, &d) as u64)).collect::<Vec<_>>()})
+                            });
+                            out.ev(merge(b, r));
+                        }
+                        "sqrt_mod" => {
+                            if p >> 24 != 0 {
+                                continue; // factor-base range
+                            }
+                            let mut ns: Vec<u64> = nps.iter().flat_map(|np| pats_sqrt(&mut rng, p64, np)).collect();
+                            dedup(&mut ns);
+                            let mut b = base.clone();
+                            b["ns"] = Value::from(ns.iter().map(|&n| du(n)).collect::<Vec<_>>());
+                            b["nx"] = hex64(&ns);
+                            let r = guard(|| {
+                                json!({"rs": ns.iter().map(|&n| match arith::sqrt_mod(n, p64) {
+                                    Some(r) => json!(sat(r)),
+                                    None => json!(-1),
+                                }).collect::<Vec<_>>()})
+                            });
+                            out.ev(merge(b, r));
+                        }
+                        _ => unreachable!(),
+                    }
+                }
+            }
+            "modu16_all" => {
+                // every 16-bit argument, in chunks
+                for p in primes.class(&pc) {
+                    const CH: usize = 8192;
+                    for c in 0..65536 / CH {
+                        let base = json!({"op": op, "case": format!("{}/{}/{}", op, p, c), "pc": pc, "p": p, "base": c * CH});
+                        let r = guard(|| {
+                            let d = Dividers::new(p);
+                            json!({"rs": (c * CH..(c + 1) * CH).map(|n| d.modu16(n as u16)).collect::<Vec<_>>()})
+                        });
+                        out.ev(merge(base, r));
+                    }
+                }
+            }
+            "invert_all" => {
+                for p in primes.class(&pc) {
+                    if p == 2 {
+                        continue;
+                    }
+                    let base = json!({"op": op, "case": format!("{}/{}", op, p), "pc": pc, "p": p});
+                    let r = guard(|| {
+                        let d = Dividers::new(p);
+                        let inv = Inverter::new(p);
+                        json!({"is": (1..p).map(|x| sat(inv.invert(x, &d) as u64)).collect::<Vec<_>>()})
+                    });
+                    out.ev(merge(base, r));
+                }
+            }
+            "sqrt_all" => {
+                for p in primes.class(&pc) {
+                    let base = json!({"op": op, "case": format!("{}/{}", op, p), "pc": pc, "p": p});
+                    let r = guard(|| {
+                        json!({"rs": (0..p as u64).map(|a| match arith::sqrt_mod(a, p as u64) {
+                            Some(r) => json!(sat(r)),
+                            None => json!(-1),
+                        }).collect::<Vec<_>>()})
+                    });
+                    out.ev(merge(base, r));
+                }
+            }
+            "sqrt_big" => {
+                // certified multiword primes p = 3 mod 4
+                let mut pool = Pool::new(seed ^ 0xc08);
+                let sizes: &[u32] = if thorough { &[65, 80, 100, 128, 160, 192, 250, 320] } else { &[65, 96, 128, 200] };
+                for &bits in sizes {
+                    let p = pool.prime_with(bits, &|p: &Uint| p.digits()[0] % 4 == 3);
+                    let chain = pool.chain_of(&p).unwrap();
+                    let mut ns: Vec<Uint> = vec![];
+                    for np in &nps {
+                        match np.as_str() {
+                            "zero" => ns.push(Uint::ZERO),
+                            "one" => ns.extend([Uint::ONE, Uint::from(2u64), Uint::from(3u64)]),
+                            "pm1" => ns.extend([p - Uint::ONE, p - Uint::from(2u64)]),
+                            "square" => {
+                                for _ in 0..2 {
+                                    let r = crate::gen::rand_below(&mut rng, &p);
+                                    ns.push(crate::gen::mulmod(&r, &r, &p));
+                                }
+                            }
+                            "rand" => {
+                                let cnt = if bits <= 130 { 4 } else { 2 };
+                                for _ in 0..cnt {
+                                    ns.push(crate::gen::rand_below(&mut rng, &p));
+                                }
+                            }
+                            "bign" => ns.extend([p + Uint::ONE, rand_bits(&mut rng, 2 * bits)]),
+                            _ => panic!("unknown sqrt_big pattern"),
+                        }
+                    }
+                    let base = json!({"op": op, "case": format!("{}/{}", op, bits), "pc": pc, "p": dn(&p), "pd": p.to_string(),
+                                      "chain": chain, "bits": bits,
+                                      "ns": ns.iter().map(dn).collect::<Vec<_>>()});
+                    let r = guard(|| {
+                        let res: Vec<Option<Uint>> = ns.iter().map(|n| arith::sqrt_mod(*n, p)).collect();
+                        json!({"some": res.iter().map(|x| x.is_some()).collect::<Vec<_>>(),
+                               "rs": res.iter().map(|x| dn(&x.unwrap_or(Uint::ZERO))).collect::<Vec<_>>()})
+                    });
+                    out.ev(merge(base, r));
+                }
+            }
+            "fbase" => {
+                for np in &nps {
+                    let reps = if thorough { 4 } else { 1 };
+                    for rep in 0..reps {
+                        let (n, size): (I1024, u32) = match np.as_str() {
+                            "pos" => (I1024::cast_from(rand_bits(&mut rng, 200)), 120),
+                            "neg" => (-I1024::cast_from(rand_bits(&mut rng, 150)), 96),
+                            _ => (I1024::cast_from(rand_bits(&mut rng, 40)), 40),
+                        };
+                        let base = json!({"op": op, "case": format!("{}/{}/{}", op, np, rep), "pc": pc, "n": di(&n), "nd": n.to_string(), "size": size});
+                        let r = guard(|| {
+                            let fb = FBase::new(n, size);
+                            // every prime up to the largest listed one: listed with its root, or -1
+                            let maxp = *fb.primes.last().unwrap_or(&2);
+                            let mut ps = vec![];
+                            let mut rs = vec![];
+                            for q in sieve(maxp as usize + 1) {
+                                ps.push(q);
+                                match fb.primes.iter().position(|&x| x == q) {
+                                    Some(i) => rs.push(json!(sat(fb.sqrts[i] as u64))),
+                                    None => rs.push(json!(-1)),
+                                }
+                            }
+                            json!({"ps": ps, "rs": rs, "listed": fb.primes.len()})
+                        });
+                        out.ev(merge(base, r));
+                    }
+                }
+            }
+            "isqrt" => {
+                let mut ns: Vec<Uint> = vec![];
+                let width: u32 = match pc.as_str() {
+                    "arith64" | "squfof" => 64,
+                    "arith256" => 256,
+                    _ => 1024,
+                };
+                let maxv = if width == 1024 { Uint::MAX } else { (Uint::ONE << width) - Uint::ONE };
+                for np in &nps {
+                    match np.as_str() {
+                        "small" => ns.extend((0..40u64).map(Uint::from)),
+                        "squares" => {
+                            for hb in 1..=width / 2 {
+                                if width > 64 && hb % 7 != 3 && hb != width / 2 {
+                                    continue;
+                                }
+                                for k in [Uint::ONE << (hb - 1), (Uint::ONE << hb) - Uint::ONE, rand_bits(&mut rng, hb)] {
+                                    let sq = k * k;
+                                    ns.extend([sq, sq + Uint::ONE, sq + k + k]);
+                                    if !sq.is_zero() {
+                                        ns.push(sq - Uint::ONE);
+                                    }
+                                }
+                            }
+                        }
+                        "pow2" => {
+                            for j in 0..width {
+                                if width > 64 && j % 5 != 1 && j != width - 1 {
+                                    continue;
+                                }
+                                ns.extend([Uint::ONE << j, (Uint::ONE << j) - Uint::ONE, (Uint::ONE << j) + Uint::ONE]);
+                            }
+                        }
+                        "max" => ns.extend([maxv, maxv - Uint::ONE, maxv - Uint::from(2u64), maxv >> 1]),
+                        "f64edge" => {
+                            // arguments around the precision of a double: k^2 + d for k near 2^26.5 .. 2^32
+                            for k in [94906265u64, 94906266, 94906267, 134217728, 3037000499, 3037000500, 4294967295, 4294967294, 2147483648, 67108865] {
+                                let k = Uint::from(k);
+                                let sq = k * k;
+                                ns.extend([sq - Uint::ONE, sq, sq + Uint::ONE, sq + k + k, sq + k + k + Uint::ONE, sq - k]);
+                            }
+                            for j in [52u32, 53, 54, 55, 60, 63] {
+                                for d in 0..3u64 {
+                                    ns.push((Uint::ONE << j) + Uint::from(d));
+                                    ns.push((Uint::ONE << j) - Uint::from(d + 1));
+                                }
+                            }
+                        }
+                        "rand" => {
+                            for _ in 0..(if thorough { 200 } else { 40 }) {
+                                let b = rng.gen_range(1..=width);
+                                ns.push(rand_bits(&mut rng, b));
+                            }
+                        }
+                        _ => panic!("unknown isqrt pattern"),
+                    }
+                }
+                ns.retain(|n| *n <= maxv);
+                dedup(&mut ns);
+                for (ci, chunk) in ns.chunks(64).enumerate() {
+                    let base = json!({"op": op, "case": format!("{}/{}/{}", op, pc, ci), "pc": pc,
+                                      "ns": chunk.iter().map(dn).collect::<Vec<_>>(),
+                                      "nx": chunk.iter().map(|n| format!("{:#x}", n)).collect::<Vec<_>>()});
+                    let r = guard(|| {
+                        let rs: Vec<Value> = chunk.iter().map(|n| match pc.as_str() {
+                            "arith64" => du(arith::isqrt(n.digits()[0])),
+                            "squfof" => du(sqf::isqrt(n.digits()[0])),
+                            "arith256" => dn(&arith::isqrt(U256::cast_from(*n))),
+                            _ => dn(&arith::isqrt(*n)),
+                        }).collect();
+                        json!({ "rs": rs })
+                    });
+                    out.ev(merge(base, r));
+                }
+            }
+            "pow_mod" => {
+                // (n, k, p) with p*p inside the type (the routine multiplies residues in the type itself)
+                let (pbits_max, cnt): (u32, usize) = match pc.as_str() {
+                    "u64" => (32, if thorough { 24 } else { 8 }),
+                    "u256" => (128, if thorough { 4 } else { 1 }),
+                    _ => (if thorough { 384 } else { 192 }, 1),
+                };
+                let mut trip: Vec<(Uint, Uint, Uint)> = vec![];
+                for np in &nps {
+                    for _ in 0..cnt {
+                        let pb = if rng.gen::<bool>() { pbits_max } else { rng.gen_range(2..=pbits_max) };
+                        let mut p = rand_bits(&mut rng, pb);
+                        if p < Uint::from(2u64) {
+                            p = Uint::from(2u64);
+                        }
+                        let kb = rng.gen_range(1..=std::cmp::min(pbits_max * 2, 128));
+                        let k = rand_bits(&mut rng, kb);
+                        let n = crate::gen::rand_below(&mut rng, &p);
+                        match np.as_str() {
+                            "k0" => trip.push((n, Uint::ZERO, p)),
+                            "k1" => trip.push((n, Uint::ONE, p)),
+                            "n0" => trip.push((Uint::ZERO, k, p)),
+                            "nbig" => trip.push((rand_bits(&mut rng, 2 * pbits_max), k, p)),
+                            "pmax" => trip.push((n, k, (Uint::ONE << pbits_max) - Uint::ONE)),
+                            "rand" => trip.push((n, k, p)),
+                            "fermat" => trip.push((n, p - Uint::ONE, p)),
+                            _ => panic!("unknown pow_mod pattern"),
+                        }
+                    }
+                }
+                for (ci, chunk) in trip.chunks(8).enumerate() {
+                    let base = json!({"op": op, "case": format!("{}/{}/{}", op, pc, ci), "pc": pc,
+                                      "ns": chunk.iter().map(|t| dn(&t.0)).collect::<Vec<_>>(),
+                                      "ks": chunk.iter().map(|t| dn(&t.1)).collect::<Vec<_>>(),
+                                      "ps": chunk.iter().map(|t| dn(&t.2)).collect::<Vec<_>>(),
+                                      "dec": chunk.iter().map(|t| format!("{}^{} mod {}", t.0, t.1, t.2)).collect::<Vec<_>>()});
+                    let r = guard(|| {
+                        let rs: Vec<Value> = chunk.iter().map(|(n, k, p)| match pc.as_str() {
+                            "u64" => du(arith::pow_mod(n.digits()[0], k.digits()[0], p.digits()[0])),
+                            "u256" => dn(&arith::pow_mod(U256::cast_from(*n), U256::cast_from(*k), U256::cast_from(*p))),
+                            _ => dn(&arith::pow_mod(*n, *k, *p)),
+                        }).collect();
+                        json!({ "rs": rs })
+                    });
+                    out.ev(merge(base, r));
+                }
+            }
+            "inv_mod64" => {
+                let mut pairs: Vec<(u64, u64)> = vec![];
+                let cnt = if thorough { 200 } else { 40 };
+                for np in &nps {
+                    for i in 0..cnt {
+                        let pb = rng.gen_range(2..=64);
+                        let p = std::cmp::max(rbits(&mut rng, pb), 2);
+                        let n = rng.gen_range(0..p);
+                        match np.as_str() {
+                            "small" => {
+                                let p = rng.gen_range(1..200u64);
+                                pairs.push((rng.gen_range(0..p + 3), p))
+                            }
+                            "coprime" => pairs.push((n, p)),
+                            "common" => {
+                                let g = [2u64, 3, 5, 7, 11, 65537, 641][i % 7];
+                                let (a, b) = (p / g, n / g);
+                                if a >= 1 {
+                                    pairs.push((b * g, a * g));
+                                }
+                            }
+                            "top63" => {
+                                let p = (rng.gen::<u64>() >> 1) | 1 << 62;
+                                pairs.push((rng.gen_range(0..p), p));
+                                pairs.push((p - 1 - (i as u64), p));
+                            }
+                            "top64" => {
+                                let p = rng.gen::<u64>() | 1 << 63;
+                                pairs.push((rng.gen_range(0..p), p));
+                                pairs.push((rng.gen_range(0..p) | 1 << 62, p | 1));
+                                pairs.push((p - 1 - (i as u64), p));
+                                pairs.push((rng.gen_range(1..1u64 << 20), p));
+                            }
+                            "ngep" => {
+                                // operand not reduced (also with its top bit set, modulus small)
+                                pairs.push((rng.gen::<u64>() | 1 << 63, p >> 1 | 1));
+                                pairs.push((p.saturating_add(n), p));
+                            }
+                            "one" => pairs.push((1, p)),
+                            "zero" => pairs.push((0, p)),
+                            _ => panic!("unknown inv_mod64 pattern"),
+                        }
+                    }
+                }
+                pairs.push((0, 1));
+                pairs.push((5, 1));
+                pairs.push((u64::MAX, u64::MAX - 1));
+                pairs.push((u64::MAX - 1, u64::MAX));
+                pairs.push((1 << 63, (1 << 63) - 1));
+                pairs.push(((1 << 63) - 1, 1 << 63));
+                pairs.push((1 << 63, (1 << 63) + 1));
+                dedup(&mut pairs);
+                for (ci, chunk) in pairs.chunks(32).enumerate() {
+                    let base = json!({"op": op, "case": format!("{}/{}", op, ci), "pc": pc,
+                                      "ns": chunk.iter().map(|t| du(t.0)).collect::<Vec<_>>(),
+                                      "ps": chunk.iter().map(|t| du(t.1)).collect::<Vec<_>>(),
+                                      "dec": chunk.iter().map(|t| format!("{} mod {}", t.0, t.1)).collect::<Vec<_>>()});
+                    let r = guard(|| {
+                        let res: Vec<Option<u64>> = chunk.iter().map(|&(n, p)| arith::inv_mod64(n, p)).collect();
+                        json!({"some": res.iter().map(|x| x.is_some()).collect::<Vec<_>>(),
+                               "rs": res.iter().map(|x| du(x.unwrap_or(0))).collect::<Vec<_>>()})
+                    });
+                    out.ev(merge(base, r));
+                }
+            }
+            "perfect_power" => {
+                let big = pc == "u1024";
+                let maxbits: u32 = if big { 1000 } else { 64 };
+                let cnt = if thorough { 12 } else { 3 };
+                let mut ns: Vec<Uint> = vec![];
+                // base^k with base of the largest size that fits
+                let power = |rng: &mut StdRng, k: u32, ns: &mut Vec<Uint>, near: bool| {
+                    let bb = std::cmp::max(maxbits / k, 2);
+                    let nb = rng.gen_range(2..=bb);
+                    let b = rand_bits(rng, nb) | Uint::ONE;
+                    let mut n = Uint::ONE;
+                    for _ in 0..k {
+                        n = n * b;
+                    }
+                    if n.bits() <= maxbits {
+                        if near {
+                            ns.extend([n + Uint::ONE, n - Uint::ONE, n + b]);
+                        } else {
+                            ns.push(n);
+                        }
+                    }
+                };
+                for np in &nps {
+                    for _ in 0..cnt {
+                        match np.as_str() {
+                            "square" => power(&mut rng, 2, &mut ns, false),
+                            "cube" => power(&mut rng, 3, &mut ns, false),
+                            "prime_exp" => {
+                                let k = [5u32, 7, 11, 13, 17, 19][rng.gen_range(0..6)];
+                                power(&mut rng, k, &mut ns, false)
+                            }
+                            "composite_exp" => {
+                                let k = [4u32, 6, 8, 9, 10, 12, 15, 16, 20, 22, 25, 27][rng.gen_range(0..12)];
+                                power(&mut rng, k, &mut ns, false)
+                            }
+                            "near" => {
+                                let k = [2u32, 2, 3, 5, 7][rng.gen_range(0..5)];
+                                power(&mut rng, k, &mut ns, true)
+                            }
+                            "rand" => {
+                                let b = rng.gen_range(2..=maxbits);
+                                ns.push(rand_bits(&mut rng, b))
+                            }
+                            "pow2" => {
+                                // 2^k: k with and without a prime factor above 19 (documented limit of the routine)
+                                let k = rng.gen_range(2..maxbits);
+                                ns.push(Uint::ONE << k);
+                                ns.push(Uint::from(3u64).pow(rng.gen_range(2..maxbits * 5 / 8)));
+                            }
+                            _ => panic!("unknown perfect_power pattern"),
+                        }
+                    }
+                }
+                if !big {
+                    ns.extend([Uint::from(6669042837601u64), Uint::from(8650415919381337933u64), Uint::from(u64::MAX), Uint::from(1u64 << 63),
+                               Uint::from(4294967295u64 * 4294967295u64), Uint::from(2u64), Uint::from(3u64), Uint::from(4u64)]);
+                }
+                ns.retain(|n| *n > Uint::ONE);
+                dedup(&mut ns);
+                for (ci, n) in ns.iter().enumerate() {
+                    let base = json!({"op": op, "case": format!("{}/{}/{}", op, pc, ci), "pc": pc, "n": dn(n), "nd": n.to_string(),
+                                      "roots": roots_json(n)});
+                    let r = guard(|| {
+                        let res: Option<(Uint, u32)> = if big {
+                            arith::perfect_power(*n)
+                        } else {
+                            arith::perfect_power(n.digits()[0]).map(|(r, k)| (Uint::from(r), k))
+                        };
+                        match res {
+                            Some((r, k)) => json!({"some": true, "r": dn(&r), "k": sat(k as u64), "broots": roots_json(&r)}),
+                            None => json!({"some": false, "r": [], "k": 0, "broots": []}),
+                        }
+                    });
+                    out.ev(merge(base, r));
+                }
+            }
+            _ => panic!("unknown routine {}", op),
+        }
+    }
+    let n = out.finish();
+    println!("{}", json!({ "events": n }));
+    0
 }
